@@ -1,6 +1,6 @@
 (* C17 - option values depend only on the input and survive a save/load cycle.
    Statements about the executable model coq/C17/OptionsModel.v (sc_options.c as repaired by bb105d5,
-   5b6f754, ede139e, 69d3f48, 5918853, 6404e3e, 5a6ac04; iniparser; key-value lookup) and
+   5b6f754, ede139e, 69d3f48, 5918853, 6404e3e, 5a6ac04, bd8c44f; iniparser as repaired by cfc9e38; key-value lookup) and
    coq/C17/GetoptModel.v (GNU getopt_long).  The model is tied to /repo on every run by the
    correspondence run of checks/C17.py.  strtod and "%.16g" are arbitrary functions in every theorem.
    This file contains only statements, `exact` proofs, Print Assumptions and Examples. *)
@@ -240,7 +240,7 @@ Print Assumptions C17_save_writes_document.
 (* === 6. save -> load -> load_args into a fresh, identically declared object === *)
 (* For ALL option tables (any nesting of prefixes, any sharing of variables between options of one type),
    ALL stores and argument lists that satisfy roundtrip_ok (ini-safe strings / arguments / key-value keys,
-   keys distinct up to case and distinct from section names, ints in INT_MIN..INT_MAX, switch counts
+   entry keys distinct up to case (a heading MAY be named like an entry since cfc9e38), ints in INT_MIN..INT_MAX, switch counts
    0..INT_MAX, sizes 0..LLONG_MAX, key-value text consistent with its variable, doubles that libc reads
    back without ERANGE), all fresh worlds w0 with the same declarations and ARBITRARY variable contents:
    all three calls succeed, every saved option variable holds `restored` (part below), the key-value
@@ -284,7 +284,7 @@ Theorem C17_roundtrip_guard_sound : forall strtod fmt16 w ob,
 Proof. exact roundtrip_ok_b_ok. Qed.
 Print Assumptions C17_roundtrip_guard_sound.
 
-(* outside the class the statement is false (recorded findings F-C17c, F-C17h, F-C17k and the case-insensitive keys) *)
+(* outside the class the statement is false (recorded findings F-C17c, F-C17h and the case-insensitive keys) *)
 Theorem C17_roundtrip_unsafe_refuted :
   forallb (fun s => negb (ini_safe s) && negb (ostr_eqb (snd (str_roundtrip s)) (Some s))) unsafe_witnesses = true.
 Proof. exact roundtrip_unsafe_refuted. Qed.
@@ -310,17 +310,36 @@ Theorem C17_key_case_collision_refuted :
 Proof. exact key_case_collision_refuted. Qed.
 Print Assumptions C17_key_case_collision_refuted.
 
-(* F-C17k: an option "b" of the sub-options "pre" and nested sub-options with the prefix "B": entry and
-   section heading share the dictionary slot "pre:b" and the switch is silently not restored *)
-Theorem C17_key_section_collision_refuted :
+(* F-C17k (repaired cfc9e38): an option "b" of the sub-options "pre" and nested sub-options with the prefix "B":
+   entry and section heading share the dictionary slot "pre:b".  For EVERY list of assignments: a stored value
+   survives every later assignment that is not an entry of the same key - headings included; hence a key is found
+   with its value as soon as no two ENTRIES share it (this is all that is left of the key condition in roundtrip_ok) *)
+Theorem C17_heading_never_erases_entry : forall l d K x,
+  (forall y, ~ In (K, Some y) l) -> dict_get d K = Some (Some x) -> dict_get (set_all l d) K = Some (Some x).
+Proof. exact dict_get_set_all_kept. Qed.
+Print Assumptions C17_heading_never_erases_entry.
+
+Theorem C17_lookup_saved_entry : forall a d K v, NoDup (entry_keys a) -> In (K, Some v) a ->
+  dict_get (set_all a d) K = Some (Some v).
+Proof. exact lookup_entry. Qed.
+Print Assumptions C17_lookup_saved_entry.
+
+(* the history that lost the switch before the repair: inside the guard now, and the switch comes back *)
+Theorem C17_key_section_collision_roundtrip :
   let r := run toy_strtod toy_fmt empty_world sec_history in
   skipn 14 (fst r) = [4; 0; 0] /\
   (st_int (w_store (snd r)) 1, st_int (w_store (snd r)) 0) = (1, 7) /\
-  (st_int (w_store (snd r)) 33, st_int (w_store (snd r)) 32) = (0, 7) /\
+  (st_int (w_store (snd r)) 33, st_int (w_store (snd r)) 32) = (1, 7) /\
   roundtrip_ok_b toy_strtod toy_fmt (snd (run toy_strtod toy_fmt empty_world (firstn 15 sec_history)))
-                 (get_opts (snd (run toy_strtod toy_fmt empty_world (firstn 15 sec_history))) 0) = false.
-Proof. exact key_section_collision_refuted. Qed.
-Print Assumptions C17_key_section_collision_refuted.
+                 (get_opts (snd (run toy_strtod toy_fmt empty_world (firstn 15 sec_history))) 0) = true.
+Proof. exact key_section_collision_roundtrip. Qed.
+Print Assumptions C17_key_section_collision_roundtrip.
+
+(* regression guard: with the reader as it was before cfc9e38 the heading "[pre:B]" erases the entry "b" of "[pre]" *)
+Theorem C17_heading_erases_entry_old_refuted :
+  dict_get (set_all sec_assigns []) k_pre_b = Some (Some k_true) /\ dict_get (set_all_old sec_assigns []) k_pre_b = Some None.
+Proof. exact (conj heading_keeps_entry heading_erases_entry_old_refuted). Qed.
+Print Assumptions C17_heading_erases_entry_old_refuted.
 
 (* === hypotheses are satisfiable, by a non-trivial state === *)
 Example C17_ex_roundtrip_hypotheses : roundtrip_ok toy_strtod toy_fmt wx (get_opts wx 0).
